@@ -10,8 +10,11 @@ use super::snipbatch::{Ctx, Item, run_items};
 use crate::bind::{RunOpts, run_pipeline};
 use crate::pool::Pool;
 
-fn no_prelude(_: &mut B) -> Vec<Stmt> {
-    vec![]
+/// the arrays of the "array-element arguments" family
+fn no_prelude(b: &mut B) -> Vec<Stmt> {
+    use vcore::gast::{DimVar, K, num};
+    let two = |n: &str| DimVar { name: n.into(), ty: None, dims: vec![(None, num(3)), (None, num(3))] };
+    vec![b.s(K::Dim { shared: false, redim: false, vars: vec![two("G$"), DimVar { name: "V$".into(), ty: None, dims: vec![(None, num(5))] }, two("K%")] })]
 }
 
 pub fn worker(case: &Value) -> Value {
